@@ -80,7 +80,38 @@ def strip_comments(s):
 
 # ------------------------------------------------------------------------------------------------ proof layer
 def vfiles():
-    return [p for p in glob.glob(os.path.join(COQ, "**", "*.v"), recursive=True) if "/Extract/gen/" not in p]
+    return [p for p in glob.glob(os.path.join(COQ, "**", "*.v"), recursive=True) if "/Extract/gen/" not in p and "/Gen/" not in p]
+
+
+# translation obligations: definitions regenerated from /repo's source on every run (harness/translate.py) and proved equal to
+# the model by conversion; a property lists the generated files its theorems lean on
+TRANSLATED = {"C05": ["NAdvanceGen"], "C13": ["NAdvanceGen"], "C17": ["NAdvanceGen"], "C10": ["FinalizeGen"]}
+
+
+def translation_layer(pid, res):
+    import translate
+    for name in TRANSLATED.get(pid, []):
+        os.makedirs(os.path.join(COQ, "Gen"), exist_ok=True)
+        path = os.path.join(COQ, "Gen", name + ".v")
+        try:
+            text = translate.GENERATORS[name](REPO)
+        except translate.Untranslatable as e:
+            text = None
+            res["ok"] = False
+            res["detail"].append("translation obligation %s: the source is outside the translator's subset (%s)" % (name, e))
+        if text is None:
+            continue
+        if not (os.path.exists(path) and open(path).read() == text):
+            open(path, "w").write(text)
+        code, log = sh("coqc -R . CS Gen/%s.v" % name, 300, cwd=COQ)
+        lemmas = re.findall(r"\bLemma\s+(\w+)", text)
+        res["obligations"] += len(lemmas)
+        res["theorems"] += ["Gen/%s.v:%s" % (name, l) for l in lemmas]
+        if code == 0:
+            res["discharged_extra"] = res.get("discharged_extra", 0) + len(lemmas)
+        else:
+            res["ok"] = False
+            res["detail"].append("translation obligation Gen/%s.v (the definition regenerated from /repo's source is no longer convertible with the model): %s" % (name, log.strip()[-400:]))
 
 
 def proof_layer(pid, tier):
@@ -146,7 +177,8 @@ def proof_layer(pid, tier):
     if closed < len(pas):
         res["ok"] = False
         res["detail"].append("only %d of %d Print Assumptions are closed" % (closed, len(pas)))
-    res["discharged"] = min(closed, len(thms)) if res["ok"] else 0
+    translation_layer(pid, res)
+    res["discharged"] = (min(closed, len(thms)) + res.get("discharged_extra", 0)) if res["ok"] else 0
     if tier == "thorough":
         code, log2 = sh("coqchk -silent -o -R . CS CS.Props.%s" % pid, 1800, cwd=COQ)
         res["coqchk"] = log2.strip()[-1500:]
